@@ -2,6 +2,7 @@ package main
 
 import (
 	"context"
+	"runtime/pprof"
 	"flag"
 	"fmt"
 	"os"
@@ -21,6 +22,13 @@ func main() {
 	if len(os.Args) < 2 {
 		fmt.Fprintln(os.Stderr, "usage: govc <unit|check|replay|list> ...")
 		os.Exit(2)
+	}
+	if pf := os.Getenv("GOVC_PROF"); pf != "" {
+		f, err := os.Create(pf)
+		if err == nil {
+			pprof.StartCPUProfile(f)
+			defer pprof.StopCPUProfile()
+		}
 	}
 	switch os.Args[1] {
 	case "unit":
@@ -62,21 +70,14 @@ func runUnits(v *Verifier, units []*Unit, dir string, quickT, longT int, all boo
 		}
 	}
 	results := make([]oblResult, len(jobs))
-	// write all queries first (prelude is final now)
+	// sequential preparation (touches shared tables)
 	for i, j := range jobs {
-		p, err := v.writeQuery(j.u, j.o, dir, "ALL", false)
-		if err != nil {
-			fmt.Fprintln(os.Stderr, "write query:", err)
-			os.Exit(2)
-		}
-		results[i] = oblResult{U: j.u, O: j.o, SMT: p}
-		if j.o.Expect != "sat" && len(j.u.Q.quantDefs) > 0 {
-			lp, _ := v.writeQuery(j.u, j.o, dir, "ALL", true)
-			results[i].Light = lp
-			if len(j.u.Q.quantDefs) > 6 {
-				fp, _ := v.writeQueryMode(j.u, j.o, dir, "ALL", "focused")
-				results[i].Focus = fp
-			}
+		results[i] = oblResult{U: j.u, O: j.o}
+		if j.u.Enc != nil && j.u.Fn != nil && j.o.Expect != "sat" && !j.o.replayDone {
+			j.o.replayTerms = v.replayTerms(j.u, j.o)
+			j.o.replayDone = true
+		} else {
+			j.o.replayDone = true
 		}
 	}
 	var wg sync.WaitGroup
@@ -87,32 +88,50 @@ func runUnits(v *Verifier, units []*Unit, dir string, quickT, longT int, all boo
 		go func(i int) {
 			defer wg.Done()
 			defer func() { <-sem }()
-			if results[i].O.Kind == "cover" {
+			r := &results[i]
+			write := func(mode string) string {
+				p, err := v.writeQueryMode(r.U, r.O, dir, "ALL", mode)
+				if err != nil {
+					fmt.Fprintln(os.Stderr, "write query:", err)
+					os.Exit(2)
+				}
+				return p
+			}
+			if r.O.Kind == "cover" {
 				// vacuity guard: only a definite unsat is a failure
-				r := runSolver(context.Background(), solvers[0], results[i].SMT, 3)
-				results[i].R = r
+				r.SMT = write("full")
+				r.R = runSolver(context.Background(), solvers[0], r.SMT, 3)
 				return
 			}
-			if results[i].Light != "" {
-				lr := runSolver(context.Background(), solvers[0], results[i].Light, 3)
+			hasQuant := len(r.U.Q.quantDefs) > 0
+			if hasQuant {
+				r.Light = write("light")
+				lr := runAttempt(context.Background(), solvers[0], r.Light, 3)
 				if lr.Verdict == "unsat" {
 					lr.Solver += "/light"
-					results[i].R = lr
+					r.R = lr
+					r.SMT = r.Light
 					return
 				}
-			}
-			if results[i].Focus != "" {
-				fr := runSolver(context.Background(), solvers[0], results[i].Focus, 6)
-				if fr.Verdict == "unsat" {
-					fr.Solver += "/focused"
-					results[i].R = fr
-					return
+				if len(r.U.Q.quantDefs) > 6 {
+					r.Focus = write("focused")
+					fr := runAttempt(context.Background(), solvers[0], r.Focus, 6)
+					if fr.Verdict == "unsat" {
+						fr.Solver += "/focused"
+						r.R = fr
+						r.SMT = r.Focus
+						return
+					}
 				}
 			}
-			results[i].R = solve(results[i].SMT, quickT, longT, all)
+			r.SMT = write("full")
+			r.R = solve(r.SMT, quickT, longT, all)
 		}(i)
 	}
 	wg.Wait()
+	if os.Getenv("GOVC_STATS") != "" {
+		fmt.Fprintf(os.Stderr, "solver cache: %d hits, %d misses\n", cacheHits, cacheMisses)
+	}
 	return results
 }
 
